@@ -464,12 +464,19 @@ func oddKeyName(i int) string {
 	return fmt.Sprintf("%0300d.", i-1) // key i-1 plus a dot
 }
 
+// hashKeyNames: keys 0/1 collide under 32-bit FNV-1a, 2/3 under Java's
+// s[0]*31^(n-1)+... (and so under every hash of that family), 4/5 under 32-bit
+// FNV-1a again (session-like names). Affinity keys are compared as strings.
+var hashKeyNames = []string{"costarring", "liquid", "Aa", "BB", "declinate", "macallums"}
+
 //go:norace
 func (s *Sim) keyNames(is []int) []string {
 	out := make([]string, len(is))
 	for i, x := range is {
 		if s.plan.OddKeys {
 			out[i] = oddKeyName(x)
+		} else if s.plan.HashKeys && x >= 0 && x < len(hashKeyNames) {
+			out[i] = hashKeyNames[x]
 		} else {
 			out[i] = keyName(x)
 		}
